@@ -141,6 +141,8 @@ def dispatch (j : Json) : Except String Json := do
   | "pw_eval" => opPwEval j
   | "transform" => opTransform j
   | "run_fun" => opRunFun j
+  | "fun_ok" => opFunOk j
+  | "run_arr" => opRunArr j
   | "round" => opRound j
   | "conv" => do
     let u ← unitOf (← str j "u"); let v ← unitOf (← str j "v")
